@@ -12,7 +12,8 @@ PROPERTY = "C16"
 LEVEL = "model_checking"
 
 EPS = 1e-9
-UNIFORM_MENU = ["mid", "lo", "lo+", "hi-", "hi"]
+# numpy.random.uniform(a, b) draws from [a, b): b itself is not a legal answer
+UNIFORM_MENU = ["mid", "lo", "lo+", "hi-", "q3"]
 
 
 def models():
@@ -152,7 +153,7 @@ class VRng:
         if ans[0] != "u":
             raise RuntimeError("answer sequence out of step (expected uniform)")
         k = ans[1]
-        v = {"mid": (a + b) / 2, "lo": a, "lo+": a + EPS * (b - a), "hi-": b - EPS * (b - a), "hi": b}[k]
+        v = {"mid": (a + b) / 2, "lo": a, "lo+": a + EPS * (b - a), "hi-": b - EPS * (b - a), "q3": a + 0.75 * (b - a)}[k]
         self.consumed.append(("u", k))
         return v
 
@@ -255,6 +256,10 @@ def explore_sampler(mname, model, method, depth, dev_bound, stats):
                 except RuntimeError as exc:
                     if "out of step" in str(exc):
                         raise
+                    if "Cannot escape sampling region" in str(exc):
+                        # documented refusal; with a deterministic answer source every retry repeats itself
+                        stats["refused_cannot_escape"] = stats.get("refused_cannot_escape", 0) + 1
+                        continue
                     bad("sampler raised " + type(exc).__name__, path, repr(exc), "flux")
                 except Exception as exc:
                     bad("sampler raised " + type(exc).__name__, path, repr(exc), "flux")
@@ -370,7 +375,7 @@ def explore(ctx):
         "evaluations": stats.get("paths", 0) + stats.get("menu_calls", 0),
         "distinct_nontrivial": stats.get("paths", 0),
         "rule": "5 models (homogeneous with cycle, forced flux, fixed flux, user inequality, user equality) x {ACHR, OptGP}: "
-                "every answer sequence of the random source (all randint values x uniform menu {lo, lo+eps, mid, hi-eps, hi}) "
+                "every answer sequence of the random source (all randint values x uniform menu {lo, lo+eps, mid, 3/4, hi-eps}) "
                 "to depth 2 and depth %d with <=%d non-default answers, alternating reaction and variable space; every point "
                 "checked against S v = 0, bounds and user constraints taken from the original model; finite menus seeds "
                 "{0,1,42} x n {1,3,4} x thinning {1,2,5} x methods x processes with the real seeded source" % (depth, dev),
